@@ -5,7 +5,7 @@ import warnings
 import fullstack
 import hbharness
 
-LEAN_MODULES = ["PyAirtouch.Props.C08"]
+LEAN_MODULES = ["PyAirtouch.Props.C08", "PyAirtouch.Props.C08At4", "PyAirtouch.Props.C08At5"]
 LEVEL = "proof"
 
 
